@@ -5,7 +5,7 @@
 #  4. demonstration PASSES without it. Results are appended to /verif/seeded/<dir>/confirm.log
 set -u
 S="/tmp/$1/out"; D="/verif/seeded/$2"; W=/tmp/vseed/repo
-mkdir -p "$D"; cp -r "$S"/* "$D"/ 2>/dev/null
+mkdir -p "$D"; [ "${NOCOPY:-0}" = "1" ] || cp -r "$S"/* "$D"/ 2>/dev/null
 L="$D/confirm.log"; : > "$L"
 cd "$W" && git checkout -q -- . && git clean -fdq tests src 2>/dev/null
 git checkout -q --detach $(git -C /repo rev-parse HEAD)
